@@ -427,7 +427,12 @@ impl SvgElement {
 
         let mut p = Position::from(self as &SvgElement);
         if self.name == "use" {
-            if let Some(href) = self.get_attr("href").or(self.get_attr("xlink:href")) {
+            // (only a reference within this document: href="other.svg#a" is left to the viewer)
+            if let Some(href) = self
+                .get_attr("href")
+                .or(self.get_attr("xlink:href"))
+                .filter(|href| href.starts_with([ELREF_ID_PREFIX, ELREF_PREVIOUS]))
+            {
                 let elref = href.parse()?;
                 let el = ctx
                     .get_element(&elref)
@@ -762,6 +767,11 @@ impl SvgElement {
                 .get_attr("href")
                 .or(element.get_attr("xlink:href"))
                 .ok_or_else(|| SvgdxError::MissingAttribute("href".to_owned()))?;
+            if element.name == "use" && !href.starts_with([ELREF_ID_PREFIX, ELREF_PREVIOUS]) {
+                // a reference into another document (href="other.svg#a") is plain SVG:
+                // nothing we can know the box of, nothing to reject either
+                break;
+            }
             let elref = href.parse()?;
             if let Some(el) = ctx.get_element(&elref) {
                 if seen.contains(&el.order_index) {
